@@ -3,3 +3,7 @@ package main
 import context "capnproto.org/go/capnp/v3/internal/vsched/vctx"
 
 func context_Background() context.Context { return context.Background() }
+
+func context_WithCancel() (context.Context, context.CancelFunc) {
+	return context.WithCancel(context.Background())
+}
